@@ -157,3 +157,61 @@ Proof.
     + destruct HT as [HT|HT]; discriminate.
   - eexists. split; [left; reflexivity|left; reflexivity].
 Qed.
+
+(* completeness of the retry loop, for EVERY definition order: if the instance_node graph of a
+   group of top-level nodes is acyclic (some rank decreases along every edge), every
+   instance_node is well-formed and names a node of the group, and the other instances of the
+   nodes resolve, then the loop ends with no leftover and no recorded error, every node of the
+   group is loaded and nothing else is.  ([nodes] is an arbitrary list: no hypothesis on order.)
+   What an instance_node is bound to is C07_node_binding_carries_id; the exact binding lists
+   are compared with the implementation by the correspondence (Check/C07.v). *)
+Theorem C07_retry_complete :
+  forall mk sc o nodes errs (rank : ident -> nat),
+    (forall n c e loaded, In n nodes -> In c (n_children n) -> load_child sc o loaded c <> CRaise e) ->
+    (forall n t h, In n nodes -> In (NNode t h) (n_children n) ->
+       h = true /\ t <> 0%N /\ exists m, In m nodes /\ n_id m = t /\ rank t < rank (n_id n)) ->
+    exists l,
+      load_group mk sc o nodes [] errs = NFinished l [] errs /\
+      (forall n, In n nodes -> In (n_uid n, n_id n) (map lnode_obj l)) /\
+      (forall x, In x (map lnode_obj l) -> exists n, In n nodes /\ x = (n_uid n, n_id n)).
+Proof.
+  intros mk sc o nodes errs rank Hg Hdef.
+  apply (retry_complete mk sc o nodes errs rank); [|exact Hdef].
+  intros n Hin c e loaded Hc. apply (Hg n c e loaded Hin Hc).
+Qed.
+Print Assumptions C07_retry_complete.
+
+(* a bound instance_node is bound to an object carrying the instantiated id: a node of this group
+   loaded before, or a library node *)
+Theorem C07_node_binding_carries_id :
+  forall sc o loaded t h u,
+    load_child sc o loaded (NNode t h) = COk (BNode u) ->
+    h = true /\ In (u, t) (lib_list o LNodes ++ map lnode_obj loaded).
+Proof. exact node_binding_carries_id. Qed.
+Print Assumptions C07_node_binding_carries_id.
+
+(* the hypotheses of C07_retry_complete are met by a chain defined in the "wrong" order *)
+Example C07_retry_complete_hypotheses_met :
+  let o : objs := [(LGeometry, (100, 10))]%N in
+  let nodes := [TNode 201 21 [NNode 22 true]; TNode 202 22 [NNode 23 true; NInst (Ref LGeometry 10 true SUrl) []];
+                TNode 203 23 []]%N in
+  let rank := fun t : ident => 30 - N.to_nat t in
+  (forall n c e loaded, In n nodes -> In c (n_children n) -> load_child InLibrary o loaded c <> CRaise e) /\
+  (forall n t h, In n nodes -> In (NNode t h) (n_children n) ->
+     h = true /\ t <> 0%N /\ exists m, In m nodes /\ n_id m = t /\ rank t < rank (n_id n)) /\
+  load_group [] InLibrary o nodes [] [] =
+    NFinished [(203, 23, []); (202, 22, [BNode 203; BInst 100 []]); (201, 21, [BNode 202])]%N [] [].
+Proof.
+  simpl. split; [|split].
+  - intros n c e loaded [<-|[<-|[<-|[]]]] Hc; simpl in Hc.
+    + destruct Hc as [<-|[]]. simpl. destruct (spec_lookup _ _); discriminate.
+    + destruct Hc as [<-|[<-|[]]]; simpl; [destruct (spec_lookup _ _); discriminate|discriminate].
+    + contradiction.
+  - intros n t h [<-|[<-|[<-|[]]]] Hc; simpl in Hc.
+    + destruct Hc as [Hc|[]]. inversion Hc. subst. split; [reflexivity|]. split; [discriminate|].
+      eexists. split; [right; left; reflexivity|]. split; [reflexivity|]. vm_compute. repeat constructor.
+    + destruct Hc as [Hc|[Hc|[]]]; [|discriminate]. inversion Hc. subst. split; [reflexivity|]. split; [discriminate|].
+      eexists. split; [right; right; left; reflexivity|]. split; [reflexivity|]. vm_compute. repeat constructor.
+    + contradiction.
+  - vm_compute. reflexivity.
+Qed.
